@@ -5,7 +5,8 @@
                    brute-force oracle's ValidFinal agree on EVERY candidate final set F;
      RobustIsResolvable  the domain in which the policy clauses are judged lies inside the
                    resolvable inputs;
-     MatchLaws     the comparison operators partition the versions as PMS says.          *)
+     MatchLaws     the comparison operators partition the versions; the version order is a strict
+                   total order reading components as numbers (9 < 10, 1.9 < 1.10, 1 < 1.0).          *)
 EXTENDS Resolver_Worlds, SequencesExt
 
 OpsFor(w, F) == SetToSeq({[t |-> "remove", p |-> p.id, old |-> "-"] : p \in Vdb(w) \ F})
@@ -23,16 +24,23 @@ RobustIsResolvable(fam) ==
     WellFormed(w) /\ (Robust(w, ts) => Resolvable(w, ts))
 
 P0(v) == [id |-> "x", key |-> "k", ver |-> v, slot |-> "0", repo |-> "src"]
-MatchLaws(top) ==
-  \A v \in 0..top, n \in 0..top :
-    LET p == P0(v)  at(op) == [key |-> "k", op |-> op, ver |-> n, slot |-> "*", blk |-> "none"] IN
-    /\ (Matches(at(">="), p) <=> ~Matches(at("<"), p))
-    /\ (Matches(at("<="), p) <=> ~Matches(at(">"), p))
-    /\ (Matches(at("="), p) <=> (Matches(at(">="), p) /\ Matches(at("<="), p)))
-    /\ Matches(at("any"), p)
-    /\ ~Matches([at("any") EXCEPT !.slot = "1"], p) /\ ~Matches([at("any") EXCEPT !.key = "j"], p)
+LawVersions == {<<1>>, <<2>>, <<9>>, <<10>>, <<1, 0>>, <<1, 9>>, <<1, 10>>, <<2, 9>>, <<2, 10>>, <<1, 9, 1>>}
+MatchLaws(vs) ==
+  /\ \A v \in vs, n \in vs :
+       LET p == P0(v)  at(op) == [key |-> "k", op |-> op, ver |-> n, slot |-> "*", blk |-> "none"] IN
+       /\ (Matches(at(">="), p) <=> ~Matches(at("<"), p))
+       /\ (Matches(at("<="), p) <=> ~Matches(at(">"), p))
+       /\ (Matches(at("="), p) <=> (Matches(at(">="), p) /\ Matches(at("<="), p)))
+       /\ Matches(at("any"), p)
+       /\ ~Matches([at("any") EXCEPT !.slot = "1"], p) /\ ~Matches([at("any") EXCEPT !.key = "j"], p)
+  \* the version order is a strict total order that reads components as numbers
+  /\ \A a, b \in vs : (a = b) \/ VLess(a, b) \/ VLess(b, a)
+  /\ \A a, b \in vs : ~(VLess(a, b) /\ VLess(b, a))
+  /\ \A a, b, c \in vs : (VLess(a, b) /\ VLess(b, c)) => VLess(a, c)
+  /\ VLess(<<9>>, <<10>>) /\ VLess(<<1, 9>>, <<1, 10>>) /\ VLess(<<2, 9>>, <<2, 10>>)
+  /\ VLess(<<1>>, <<1, 0>>) /\ VLess(<<1, 10>>, <<2>>) /\ VLess(<<1, 9>>, <<1, 9, 1>>)
 
-ASSUME MatchLaws(4)
+ASSUME MatchLaws(LawVersions)
 ASSUME RobustIsResolvable(LawFamilyOf(Family))
 ASSUME Formulations(LawFamilyOf(Family))
 =========================================================================
